@@ -267,6 +267,10 @@ fn do_new(cx: &mut Ctx, rng: &mut Rng) {
             _ => f.5 = *rng.pick(&[0u8, 59, 60, 255]),
         }
     }
+    do_new_fields(cx, f);
+}
+
+fn do_new_fields(cx: &mut Ctx, f: Fields) {
     let r = catch(AssertUnwindSafe(|| UtcDateTime::new(f.0, f.1, f.2, f.3, f.4, f.5)));
     cx.push(format!("KNew {} {} {} {} {} {} {}", f.0, f.1, f.2, f.3, f.4, f.5, res_dt_coq(&r)), true);
     match &r {
@@ -311,11 +315,7 @@ fn do_new(cx: &mut Ctx, rng: &mut Rng) {
 
 fn do_add(cx: &mut Ctx, rng: &mut Rng) {
     let f = gen_valid_fields(rng);
-    let d = match UtcDateTime::new(f.0, f.1, f.2, f.3, f.4, f.5) {
-        Ok(d) => d,
-        Err(_) => return,
-    };
-    let (unit, name): (i64, &str) = *rng.pick(&[(86400, "days"), (3600, "hours"), (60, "minutes"), (1, "seconds")]);
+    let unit: i64 = *rng.pick(&[86400, 3600, 60, 1]);
     let n: i64 = match rng.below(8) {
         0 => rng.range(0, 2000) as i64 - 1000,
         1 => rng.range(0, 4_000_000) as i64 - 2_000_000,
@@ -331,6 +331,20 @@ fn do_add(cx: &mut Ctx, rng: &mut Rng) {
             ((MIN_TS as i128 - t0) / unit as i128 + rng.range(0, 2) as i128 - 1) as i64
         }
         _ => rng.range(0, 200_000) as i64 - 100_000,
+    };
+    do_add_case(cx, f, unit, n);
+}
+
+fn do_add_case(cx: &mut Ctx, f: Fields, unit: i64, n: i64) {
+    let name = match unit {
+        86400 => "days",
+        3600 => "hours",
+        60 => "minutes",
+        _ => "seconds",
+    };
+    let d = match UtcDateTime::new(f.0, f.1, f.2, f.3, f.4, f.5) {
+        Ok(d) => d,
+        Err(_) => return,
     };
     let r = catch(AssertUnwindSafe(|| match unit {
         86400 => d.add_days(n),
@@ -478,6 +492,167 @@ fn do_parse_str(cx: &mut Ctx, s: &str) {
     }
 }
 
+/// Deterministic boundary family (identical for every seed): every comparison / rare branch of the
+/// modelled functions gets inputs on both sides and at equality. Each class is counted and floored.
+fn boundary_family(cx: &mut Ctx) {
+    const DAY: i128 = 86400;
+    let clamp = |t: i128| -> Option<i64> { if t >= MIN_TS as i128 && t <= MAX_TS as i128 { Some(t as i64) } else { None } };
+    // (a) range comparison of from_instant
+    for t in [MIN_TS - 1, MIN_TS, MIN_TS + 1, MAX_TS - 1, MAX_TS, MAX_TS + 1, i64::MIN, i64::MIN + 1, i64::MAX, i64::MAX - 1, 0, -1, 1] {
+        cx.report.count("bf_range_edge");
+        do_timestamp(cx, t);
+    }
+    // (b) `remaining_secs < 0` fix-up: around the 2000-03-01 base, with remainder 0 and non-zero
+    for off in [-86401i64, -86400, -86399, -2, -1, 0, 1, 2, 86399, 86400, 86401] {
+        cx.report.count("bf_march_y2k_seconds");
+        do_timestamp(cx, SHIFT + off);
+    }
+    // (c) `remaining_days < 0` fix-up and the 400-year cycle: every cycle boundary in range near 2000
+    // (0400/0800/1200/1600/2000/2400/...-03-01), far cycles, +-1 day, first/last second of the day
+    let max_cycle = (MAX_TS as i128 - SHIFT as i128) / DAY / D400 as i128;
+    let mut cycles: Vec<i128> = (-5..=6).collect();
+    cycles.extend([1000, 100_000, max_cycle - 1, max_cycle]);
+    for c in cycles {
+        for dd in [-2i128, -1, 0, 1] {
+            for sec in [0i128, 1, 86399] {
+                if let Some(t) = clamp(SHIFT as i128 + (c * D400 as i128 + dd) * DAY + sec) {
+                    cx.report.count(if c < 0 { "bf_400y_boundary_before_2000" } else { "bf_400y_boundary_from_2000" });
+                    do_timestamp(cx, t);
+                }
+            }
+        }
+    }
+    // (d) 100-year boundaries (n100 = 1,2,3 and the `== 4` clamp on day 146096), in a negative, the
+    // zero and a positive cycle
+    for c in [-1i128, 0, 1] {
+        for k in 1..=4i128 {
+            for dd in [-1i128, 0, 1] {
+                if let Some(t) = clamp(SHIFT as i128 + (c * D400 as i128 + k * 36524 + dd) * DAY) {
+                    cx.report.count("bf_100y_boundary");
+                    do_timestamp(cx, t);
+                }
+            }
+        }
+    }
+    // (e) 4-year boundaries inside each kind of century (first, middle, last: the short last 4-year
+    // group of a non-400 century, the full one of the 400 century) and single-year boundaries incl.
+    // `remaining_years == 4` (29 Feb = last day of a 4-year group)
+    for c in [-1i128, 0] {
+        for cent in 0..4i128 {
+            for four in [0i128, 1, 12, 23, 24] {
+                for yr in 0..=4i128 {
+                    for dd in [-1i128, 0] {
+                        let day = c * D400 as i128 + cent * 36524 + four * 1461 + yr * 365 + dd;
+                        if let Some(t) = clamp(SHIFT as i128 + day * DAY) {
+                            cx.report.count("bf_4y_and_1y_boundary");
+                            do_timestamp(cx, t);
+                        }
+                    }
+                }
+            }
+        }
+    }
+    // (f) month loop and month carry: first and last day of every month in every kind of year, on
+    // both sides of 1970 and at both ends of the supported range (through new -> to_instant -> from_instant)
+    let years: [u32; 19] = [1, 2, 4, 100, 400, 1600, 1900, 1968, 1969, 1970, 1971, 1972, 2000, 2001, 2100, 2400, u32::MAX - 3, u32::MAX - 1, u32::MAX];
+    for y in years {
+        for m in 1..=12u8 {
+            cx.report.count("bf_month_first_last_day");
+            do_new_fields(cx, (y, m, 1, 0, 0, 0));
+            do_new_fields(cx, (y, m, month_len(y, m), 23, 59, 59));
+        }
+    }
+    // (g) every comparison of `new`: day 0 / 1 / len-1 / len / len+1 for every month of a leap, a
+    // non-leap, a non-leap century and a leap century year; month/hour/minute/second/year limits
+    for y in [2023u32, 2024, 1900, 2000] {
+        for m in 1..=12u8 {
+            let l = month_len(y, m);
+            for d in [0u8, 1, l - 1, l, l + 1] {
+                cx.report.count("bf_new_day_limits");
+                do_new_fields(cx, (y, m, d, 12, 30, 30));
+            }
+        }
+    }
+    for f in [
+        (0u32, 1u8, 1u8, 0u8, 0u8, 0u8), (1, 1, 1, 0, 0, 0), (u32::MAX, 12, 31, 23, 59, 59), (2024, 0, 1, 0, 0, 0), (2024, 13, 1, 0, 0, 0), (2024, 255, 1, 0, 0, 0),
+        (2024, 1, 255, 0, 0, 0), (2024, 1, 1, 23, 0, 0), (2024, 1, 1, 24, 0, 0), (2024, 1, 1, 255, 0, 0), (2024, 1, 1, 0, 59, 0), (2024, 1, 1, 0, 60, 0),
+        (2024, 1, 1, 0, 255, 0), (2024, 1, 1, 0, 0, 59), (2024, 1, 1, 0, 0, 60), (2024, 1, 1, 0, 0, 255), (0, 0, 0, 24, 60, 60), (1969, 0, 1, 0, 0, 0), (1969, 13, 1, 0, 0, 0),
+        (1969, 14, 1, 0, 0, 0), (1969, 1, 1, 24, 0, 0), (1969, 1, 1, 0, 60, 0), (1969, 1, 1, 0, 0, 60), (1970, 14, 1, 0, 0, 0), (1970, 13, 0, 0, 0, 0), (1969, 2, 30, 0, 0, 0),
+    ] {
+        cx.report.count("bf_new_field_limits");
+        do_new_fields(cx, f);
+    }
+    // (h) time of day: hour / minute / second roll-overs, printing widths of the year
+    for sod in [0i64, 1, 59, 60, 61, 3599, 3600, 3601, 43199, 43200, 86398, 86399] {
+        cx.report.count("bf_time_of_day");
+        do_timestamp(cx, 1_700_006_400 - 1_700_006_400 % 86400 + sod);
+        do_timestamp(cx, -86400 * 1000 + sod);
+    }
+    for y in [1i128, 9, 10, 99, 100, 999, 1000, 9999, 10000, 99999, 4294967295] {
+        cx.report.count("bf_year_width");
+        do_timestamp(cx, (days_from_civil(y, 1, 1) * DAY) as i64);
+        if let Some(t) = clamp(days_from_civil(y, 12, 31) * DAY + 86399) {
+            do_timestamp(cx, t);
+        }
+    }
+    // (i) add_*: checked_mul and checked_add limits, landing exactly on / one unit beyond both ends
+    for f in [(1970u32, 1u8, 1u8, 0u8, 0u8, 0u8), (1, 1, 1, 0, 0, 0), (u32::MAX, 12, 31, 23, 59, 59), (2000, 2, 29, 12, 0, 0), (1969, 12, 31, 23, 59, 59)] {
+        let t0 = ts_of_greg(&f);
+        for unit in [86400i64, 3600, 60, 1] {
+            let to_max = ((MAX_TS as i128 - t0) / unit as i128) as i64;
+            let to_min = ((MIN_TS as i128 - t0) / unit as i128) as i64;
+            let mut ns = vec![
+                0, 1, -1, to_max, to_max.saturating_add(1), to_max.saturating_sub(1), to_min, to_min.saturating_sub(1), to_min.saturating_add(1),
+                i64::MAX / unit, (i64::MAX / unit).saturating_add(1), i64::MIN / unit, (i64::MIN / unit).saturating_sub(1), i64::MAX, i64::MIN,
+            ];
+            if unit == 1 {
+                ns.push((i64::MAX as i128 - t0).min(i64::MAX as i128) as i64);
+                ns.push((i64::MIN as i128 - t0).max(i64::MIN as i128) as i64);
+            }
+            for n in ns {
+                cx.report.count("bf_add_limits");
+                do_add_case(cx, f, unit, n);
+            }
+        }
+    }
+    // (j) from_str: is_ascii / char count / each separator / each digit position / signs / each
+    // DateTimeError through text
+    let good = "2023-01-27T12:17:25Z";
+    let gc: Vec<char> = good.chars().collect();
+    for pos in 0..20 {
+        for ch in ['é', '€', '𝟙'] {
+            let mut c = gc.clone();
+            c[pos] = ch;
+            cx.report.count("bf_str_non_ascii_each_position");
+            do_parse_str(cx, &c.into_iter().collect::<String>());
+        }
+        for ch in ['+', '-', ' ', 'x', '/', ':', '0'] {
+            let mut c = gc.clone();
+            if c[pos] != ch {
+                c[pos] = ch;
+                cx.report.count("bf_str_ascii_each_position");
+                do_parse_str(cx, &c.into_iter().collect::<String>());
+            }
+        }
+    }
+    for s in [
+        "", "2", "2023-01-27T12:17:25", "2023-01-27T12:17:25ZZ", "02023-01-27T12:17:25Z", "2023-01-27T12:17:2Z", "2023-1-27T12:17:25Z0", "é023-01-27T12:17:2Z",
+        "éé23-01-27T12:17Z", "2023-01-27t12:17:25Z", "2023-01-27T12:17:25z", "2023/01/27T12:17:25Z", "2023-01-27 12:17:25Z", "2023-01-27T12.17.25Z",
+    ] {
+        cx.report.count("bf_str_length_and_separators");
+        do_parse_str(cx, s);
+    }
+    for s in [
+        "0000-01-01T00:00:00Z", "0001-01-01T00:00:00Z", "9999-12-31T23:59:59Z", "2023-00-01T00:00:00Z", "2023-13-01T00:00:00Z", "2023-12-00T00:00:00Z", "2023-12-32T00:00:00Z",
+        "2023-02-29T00:00:00Z", "2024-02-29T00:00:00Z", "2024-02-30T00:00:00Z", "1900-02-29T00:00:00Z", "2000-02-29T00:00:00Z", "2023-04-31T00:00:00Z", "2023-01-01T24:00:00Z",
+        "2023-01-01T23:60:00Z", "2023-01-01T23:59:60Z", "2023-01-01T99:99:99Z", "2023-99-99T99:99:99Z", "+023-+1-+7T+2:+7:+5Z", "-023-01-27T12:17:25Z", "2023--1-27T12:17:25Z",
+        "++23-01-27T12:17:25Z", "2+23-01-27T12:17:25Z", "202+-01-27T12:17:25Z", "2023-0+-27T12:17:25Z", "2023-+0-27T12:17:25Z", "+000-01-01T00:00:00Z", "2023-01-27T12:17:+5Z",
+    ] {
+        cx.report.count("bf_str_field_values_and_signs");
+        do_parse_str(cx, s);
+    }
+}
+
 fn main() {
     let args = Args::parse();
     let mut report = Report::new(
@@ -498,6 +673,7 @@ fn main() {
         for t in [MIN_TS, MAX_TS, MIN_TS - 1, MAX_TS + 1, 0, -1, 951782400, 951868800] {
             do_timestamp(&mut cx, t);
         }
+        boundary_family(&mut cx);
     }
     for i in 0..args.cases {
         let mut rng = root.fork(i as u64);
@@ -522,6 +698,14 @@ fn main() {
     report.floor("add_some", n / 100);
     report.floor("add_none", n / 200);
     report.floor("print_parse_roundtrips", n / 20);
+    for (class, min) in [
+        ("bf_range_edge", 13), ("bf_march_y2k_seconds", 11), ("bf_400y_boundary_before_2000", 48), ("bf_400y_boundary_from_2000", 132), ("bf_100y_boundary", 36),
+        ("bf_4y_and_1y_boundary", 400), ("bf_month_first_last_day", 228), ("bf_new_day_limits", 240), ("bf_new_field_limits", 26), ("bf_time_of_day", 12), ("bf_year_width", 11),
+        ("bf_add_limits", 310), ("bf_str_non_ascii_each_position", 60), ("bf_str_ascii_each_position", 134), ("bf_str_length_and_separators", 14), ("bf_str_field_values_and_signs", 28),
+        ("parse_panic", 0),
+    ] {
+        report.floor(class, min);
+    }
     cw.write(&args.out, args.shards).unwrap();
     report.write(&args.out).unwrap();
 }
